@@ -1,6 +1,7 @@
 import LZ4V.Properties.C19
 import LZ4V.Properties.C08Fun
 import LZ4V.Proofs.FrameLinkedProof
+import LZ4V.Proofs.FrameFastE2E
 /-!
 # C19, the decompression context — reusable after any history, frames consumed one by one
 
@@ -41,6 +42,17 @@ theorem reused_cctx_linked_frame_decodes (E : LZ4V.Spec.FrameL.Env) (ok : LZ4V.M
     (hcs : p.contentSize = 0 ∨ p.contentSize = (LZ4V.Model.FrameLinked.contentOf ops).length) :
     ∃ F, LZ4V.Spec.FrameL.pFrame E [] F (LZ4V.Model.FrameLinked.frameFrom E hashOf p S0 ops) = .ok (LZ4V.Model.FrameLinked.contentOf ops, []) :=
   ⟨_, LZ4V.Model.FrameLinked.frameFrom_parses E ok hashOf p hb hcs64 hd32 S0 hI0 hnd0 ops hleg hcs⟩
+
+/-- … and a correct independent-blocks frame (`Model/FrameFast.lean`): in that mode `LZ4F_compressBegin` does not reset the LZ4 state, every block goes
+    through `LZ4_compress_fast_extState_fastReset` which decides itself what to keep (`LZ4_prepareTable`); the state the earlier frames left is ANY state
+    satisfying `FastR.J` (table entries not above `currentOffset`; checked by the judge on the state dumped from the real context) -/
+theorem reused_cctx_independent_frame_decodes (E : LZ4V.Spec.FrameL.Env) (ok : LZ4V.Model.FrameFast.EnvOK E) (hashOf : Array UInt8 → Bool → Nat → Nat)
+    (p : LZ4V.Model.FrameFast.Prefs) (hb : 4 ≤ p.bsid ∧ p.bsid ≤ 7) (hcs64 : p.contentSize < 256 ^ 8) (hd32 : p.dictID < 256 ^ 4)
+    (S0 : LZ4V.Model.FastR.RState) (hJ0 : LZ4V.Model.FastR.J S0) (ops : List LZ4V.Model.FrameC.Op)
+    (hops : ∀ op ∈ ops, ∀ b a, op ≠ .begin b a) (f : LZ4V.Spec.FrameL.Bytes) (h : LZ4V.Model.FrameFast.frameOfOpsFrom E hashOf p S0 ops = some f)
+    (hcs : p.contentSize = 0 ∨ p.contentSize = (LZ4V.Model.FrameC.fed ops).length) :
+    ∃ F, LZ4V.Spec.FrameL.pFrame E [] F f = .ok (LZ4V.Model.FrameC.fed ops, []) :=
+  LZ4V.Model.FrameFast.frameOfOpsFrom_parses E ok hashOf p hb hcs64 hd32 S0 hJ0 ops hops f h hcs
 
 /-- the hypothesis is met by every state `LZ4_resetStream_fast` makes of a state satisfying the stream invariant -/
 theorem reset_state_meets_hypothesis (S : LZ4V.Model.FastX.XState) (hJ : LZ4V.Model.FastX.JX S) :
